@@ -146,12 +146,12 @@ class TorrentFileStream:
 
         if exclusive:
             # Remove first piece index if it's not exclusive
-            files_in_first_piece = self.get_files_at_piece_index(first_piece_index)
+            files_in_first_piece = self.get_files_at_piece_index(first_piece_index, content_path='')
             if files_in_first_piece != [file]:
                 piece_indexes.remove(first_piece_index)
 
             # Remove last piece index if it's not exclusive
-            files_in_last_piece = self.get_files_at_piece_index(last_piece_index)
+            files_in_last_piece = self.get_files_at_piece_index(last_piece_index, content_path='')
             if last_piece_index in piece_indexes and files_in_last_piece != [file]:
                 piece_indexes.remove(last_piece_index)
 
